@@ -409,8 +409,14 @@ fn c32_case(c: &FaultCase) -> CaseResult {
         let mut ranges = vec![];
         for s in &c.history {
             let a = calls.load(Ordering::Relaxed);
-            run_step(&mut model, &mut db, s, &mut info)?;
+            let r = run_step(&mut model, &mut db, s, &mut info)?;
             ranges.push((a, calls.load(Ordering::Relaxed)));
+            if matches!(r, StepResult::Failed { .. }) {
+                // a rolled-back step may reorder edges and properties (C13 allows it): adopt
+                // the real order, as run_history does, before the next step is compared
+                let real = check_dump(&model, &db, false, "failed step (probe pass)")?;
+                resync_order(&mut model, &real);
+            }
         }
         ranges
     };
@@ -584,8 +590,14 @@ fn c32_mem_case(c: &FaultCase) -> CaseResult {
         let mut ranges = vec![];
         for s in &c.history {
             let a = calls.load(Ordering::Relaxed);
-            run_step(&mut model, &mut db, s, &mut info)?;
+            let r = run_step(&mut model, &mut db, s, &mut info)?;
             ranges.push((a, calls.load(Ordering::Relaxed)));
+            if matches!(r, StepResult::Failed { .. }) {
+                // a rolled-back step may reorder edges and properties (C13 allows it): adopt
+                // the real order, as run_history does, before the next step is compared
+                let real = check_dump(&model, &db, false, "failed step (probe pass)")?;
+                resync_order(&mut model, &real);
+            }
         }
         ranges
     };
